@@ -45,6 +45,9 @@ CLAIMS = {
  'C16': dict(technique="runtime monitoring: compiled wrappers with marker outputs executed by vsim; per-clock monitors check closed-form timing specifications (resume clock, shift by n, run lengths, pulse spacing, saturating counter model)",
              text="Exploration: wait_for/Waiter n=0..20 constant and run-time, Durations, delay lines 0..6, counters, ClockDivider periods 2..9 x options (power-up vs reset), ToggleSignal durations 1..5 and run-time, debounce closure over input sequences.",
              ref="2 C16"),
+ 'C18': dict(technique="runtime monitoring: table of std helpers in compiled wrappers executed by vsim over all input values, compared online with one-line integer definitions; CRC checked against bitwise polynomial division",
+             text="Exploration: 39 helpers x widths 1..13 / list lengths 1..6 / batch sizes x all input values (<=10 input bits) + constant-operand instances; BitwiseCrc 3 polynomials x 1..4 bits per step.",
+             ref="2 C18"),
  'C13': dict(technique="runtime monitoring: fresh interpreter per creation order with post-hoc assertions on identity / issubclass / isinstance of the lazily created classes and on view write-through; nested views in emitted logic executed by vsim",
              text="Exploration: seeded creation orders (widths 1..40, arrays, 4 qualifiers, 3 directions) in fresh processes; random nested view chains as read sources and write targets of compiled entities.",
              ref="2 C13"),
